@@ -81,7 +81,7 @@ SPECS["C12"] = {
         {"name": "VerifC12_BufferLimit", "tiers": ["thorough"], "thorough": {"params": [4], "bound": 3, "flags": ["-par", "6", "-max-paths", "3000000"]}, "expect_reach": ["end", "accepted", "rejected"]},
         {"name": "VerifC12_PrepareMessage", "quick": {"params": [0, 1, 2], "bound": 3}, "thorough": {"params": [0, 1, 2], "bound": 12}, "expect_reach": ["end", "fits", "too-large"]},
         {"name": "VerifC12_HTTPResponseLimit", "quick": {"params": [0, 1], "bound": 1}, "thorough": {"params": [0, 1, 2], "bound": 2}, "expect_reach": ["end", "fits", "too-large"]},
-        {"name": "VerifC12_HTTPEndToEndLimit", "native": False, "quick": {"params": [0, 2], "procs": 2}, "thorough": {"params": [0, 1, 2, 3], "procs": 4}, "expect_reach": ["end", "fits", "too-large"]},
+        {"name": "VerifC12_HTTPEndToEndLimit", "native": False, "quick": {"params": [0, 2], "procs": 2}, "thorough": {"params": [0, 1, 2, 3], "procs": 4}, "expect_reach": ["end", "fits", "too-large", "huge-limit"]},
         {"name": "VerifC12_SendReply", "quick": {"params": [0, 1, 2], "bound": 3}, "thorough": {"params": [0, 1, 2], "bound": 12}, "expect_reach": ["end", "fits", "too-large"]},
         {"name": "VerifC14_SurvivesFailedReply", "native": False, "quick": {"params": [0, 1, 2, 3, 4], "procs": 5}, "thorough": {"params": [0, 1, 2, 3, 4], "procs": 5},
          "expect_reach": ["end", "first-answered", "first-unanswerable"]},
@@ -411,6 +411,7 @@ _MORE4 = {
     "C08": " Session 4: delimiters containing '%' ('%', thorough also '-%-'); java.util.Formatter is modelled exactly in the Java extractor (%s, %%, anything else throws). Found and fixed F27.",
     "C11": " Session 4: VerifC11_IncludedTypedefs: typedefs across an include (typedef of an included typedef, local chain ending in the include, same-name re-export, chain INSIDE the include, typedef of an included struct), bare or as list / map element: validate() accepts, UnderlyingType terminates (200 000-instruction bound reported as a violation) with the base type / included struct, IsStruct agrees. Open finding F26 (two assertions).",
     "C16": " Session 4: in VerifC16_ErrorOnly the error a middleware sets and the error the target returns is a pointer error, a zero-size STRUCT VALUE (like context.DeadlineExceeded) or an integer-based error at its zero value: middleware and caller see exactly that error.",
+    "C12": " Session 4: VerifC12_HTTPEndToEndLimit also runs with response limits far above any reply (2^32 and MaxInt64): the limit travels as a decimal header and the within-limit reply must be delivered.",
     "C20": " Session 4: Stop may also be called before the Serve goroutine has executed its first statement (the stop request must not be lost: Serve returns, later requests are not processed).",
 }
 for _k, _t in _MORE4.items():
